@@ -31,7 +31,8 @@ type Clause struct {
 	E       SExpr
 	Props   []string
 	Line    string
-	NoTrace bool // ensures not to be assumed about a callee's full trace
+	NoTrace bool   // ensures not to be assumed about a callee's full trace
+	View    string // `ensures-view NAME ...`: proved for the function, assumed at a call site only when the caller says `use-view NAME`
 }
 
 type LoopSpec struct {
@@ -71,6 +72,7 @@ type Contract struct {
 	CasesLo      int
 	CasesHi      int
 	SplitVars    []Clause        // function-level `splitvar`: case split on the skolemised bound variable of quantified ensures (proof search only)
+	UseViews     map[string]bool // `use-view NAME`: the caller imports the callee ensures of that view
 	Inline       map[string]bool // `inline F`: calls of F in this theorem execute F's body instead of using its contract
 	BranchSplit  bool            // `branch-split`: an obligation the solvers leave undecided is retried per branch of the enclosing ifs (proof search only)
 	Sequential   bool            // `sequential`: later invariant / ensures clauses may assume earlier ones (each stays an obligation of its own)
@@ -343,7 +345,7 @@ func (e *Engine) scanGlobals() {
 var clauseKeywords = map[string]bool{"func": true, "theorem": true, "global": true, "props": true, "requires": true,
 	"ensures": true, "panics": true, "modifies": true, "decreases": true, "yields": true, "loop": true, "invariant": true,
 	"let": true, "split": true, "mode": true, "established-by": true, "thin": true, "trusted": true, "assert": true,
-	"ensures-notrace": true, "modifies-heap": true, "witness": true, "callback": true, "readonly-heap": true, "fresh-result": true, "pure": true, "splitvar": true, "snapshot": true, "snapshot-after": true, "use-lemma": true, "cases": true, "sequential": true, "branch-split": true, "inline": true}
+	"ensures-notrace": true, "modifies-heap": true, "witness": true, "callback": true, "readonly-heap": true, "fresh-result": true, "pure": true, "splitvar": true, "snapshot": true, "snapshot-after": true, "use-lemma": true, "cases": true, "sequential": true, "branch-split": true, "inline": true, "ensures-view": true, "use-view": true}
 
 type rawClause struct {
 	kw   string
@@ -564,7 +566,22 @@ func (e *Engine) loadContracts() error {
 						fmt.Sscanf(rc.text, "%d", &k)
 						curLoop = &LoopSpec{}
 						cur.Loops[k] = curLoop
-					case "requires", "ensures", "ensures-notrace", "panics", "invariant", "decreases", "split", "splitvar":
+					case "use-view":
+						if cur.UseViews == nil {
+							cur.UseViews = map[string]bool{}
+						}
+						for _, f := range strings.Fields(strings.ReplaceAll(rc.text, ",", " ")) {
+							cur.UseViews[f] = true
+						}
+					case "requires", "ensures", "ensures-notrace", "ensures-view", "panics", "invariant", "decreases", "split", "splitvar":
+						view := ""
+						if rc.kw == "ensures-view" {
+							f := strings.SplitN(strings.TrimSpace(rc.text), " ", 2)
+							if len(f) != 2 {
+								return perr(fmt.Errorf("ensures-view needs a view name and an expression"))
+							}
+							view, rc.text = f[0], f[1]
+						}
 						props, text := parseProps(rc.text)
 						ex, err := parseSpec(text)
 						if err != nil {
@@ -578,6 +595,9 @@ func (e *Engine) loadContracts() error {
 							cur.Ensures = append(cur.Ensures, cl)
 						case "ensures-notrace":
 							cl.NoTrace = true
+							cur.Ensures = append(cur.Ensures, cl)
+						case "ensures-view":
+							cl.View = view
 							cur.Ensures = append(cur.Ensures, cl)
 						case "panics":
 							cur.Panics = &cl
